@@ -373,8 +373,8 @@ def run_one(seed, dec):
     if rc.violation is None:
         try:
             msgs = [r.msg for r in rc.tap.records]
-            O.account(msgs, rc.model)
-            O.check_forest(msgs, rc.model, order_free=False)
+            O.account(msgs, rc.model, lenient=True)
+            O.check_forest(msgs, rc.model, order_free=False, lenient=True, fields=False)
         except Violation as v:
             rc.fail_v(v)
     prog = {"world": "gen", "actors": [[]], "types": {}}
@@ -560,7 +560,21 @@ def drive(rc, run, cfg, bodies, counter, st, steps, ctxs):
     order = list(gens)
     for g in order:
         ck = st.choose(2, "create-ctx")      # long-lived contexts only: none or the root
-        esc = do_step(g, "next", ck, creating=True, handling=st.choose(5, "create-handling") == 4)
+        apart = st.choose(3, "make-apart")
+        if apart:
+            # the generator object is made in one context (the root, a step action that has ended by the time
+            # it runs, none) and started in another: "its own context" is the one current when it is STARTED
+            cms = contexts([1, 3][apart - 1])
+            for cm in cms:
+                cm.__enter__()
+            try:
+                g.it = run.make(g)()
+            finally:
+                for cm in reversed(cms):
+                    cm.__exit__(None, None, None)
+            rc.probe("generator_made_in_one_context_started_in_another")
+            ck = st.choose(2, "first-step-ctx")      # (long-lived contexts only, as for the combined step)
+        esc = do_step(g, "next", ck, creating=not apart, handling=st.choose(5, "create-handling") == 4)
         steps.append((g.gid, "create", ck))
         n_steps += 1
     while n_steps < cfg["max_steps"]:
